@@ -140,8 +140,10 @@ impl IndicatorInstance for ChandeMomentumOscillatorInstance {
 		let (left_pos, left_neg) = change(left_value);
 		let (right_pos, right_neg) = change(ch);
 
-		self.pos_sum += right_pos - left_pos;
-		self.neg_sum += right_neg - left_neg;
+		// both are sums of non-negative values: a negative rounding residue of the incremental updates
+		// would push the ratio out of [-1.0; 1.0] (down to infinity when the residues cancel each other)
+		self.pos_sum = (self.pos_sum + (right_pos - left_pos)).max(0.);
+		self.neg_sum = (self.neg_sum + (right_neg - left_neg)).max(0.);
 
 		let value = if self.pos_sum != 0. || self.neg_sum != 0. {
 			(self.pos_sum - self.neg_sum) / (self.pos_sum + self.neg_sum)
